@@ -256,7 +256,9 @@ pub fn c18(ctx: &Ctx) {
     };
     let mut per_y = Vec::new();
     let mut pow_n = 0u64;
-    for y in LIB_EXPONENTS {
+    // the exponents the library uses, then the exponents that invite a special case (roots, reciprocals, small integers)
+    const COMMON_EXPONENTS: [f32; 16] = [0.5, 1.0 / 3.0, 1.5, 2.0 / 3.0, 2.0, -0.5, -2.0, 0.25, 4.0, -1.5, 1.2, 0.1, 10.0, -0.25, 5.0, -1.0 / 3.0];
+    for y in LIB_EXPONENTS.iter().copied().chain(COMMON_EXPONENTS) {
         let res = Mutex::new((Worst::<(f32, f32, f64)>::new(), 0u64));
         let phase = crate::gen::hash64(ctx.seed ^ y.to_bits() as u64) % xstep;
         ev::par_ranges("C18", nx, 1 << 22, |_w, a, b| {
